@@ -50,7 +50,13 @@ def gen_plan(seed, tier, index):
     for p in pages:
         if r.random() < 0.1:
             p['dup_line'] = True
+        if r.random() < 0.15 and len(p['lines']) >= 2:
+            # explicit index attributes that disagree with the order of the lines in the layout
+            for j, ln in enumerate(p['lines']):
+                ln['index'] = len(p['lines']) - j
         for ln in p['lines']:
+            if r.random() < 0.08:
+                ln['dtype'] = 'float64'
             ln['frames'] = r.randint(1, 40) if r.random() < 0.2 else ln['frames']
             x = r.random()
             if x < 0.1:
@@ -72,7 +78,7 @@ def gen_plan(seed, tier, index):
         x = r.random()
         if not saved or x < 0.3:
             pg = r.randrange(npages)
-            op = {'op': 'save', 'page': pg, 'via': r.choice(['file', 'file', 'bytes'])}
+            op = {'op': 'save', 'page': pg, 'via': r.choice(['file', 'file', 'bytes']), 'with_conf': r.random() < 0.5}
             if not fault_free and r.random() < 0.15:
                 op['strip'] = {'line': r.randint(0, 3), 'what': r.choice(['logits', 'characters', 'logit_coords'])}
             else:
@@ -164,6 +170,12 @@ def execute(plan):
                 spec = plan['pages'][pg]
                 if op['op'] == 'save':
                     layout = content.build_layout(spec, chars)
+                    if op.get('with_conf'):
+                        try:                      # as the producer's PageParser leaves it: confidences set from the logits
+                            new_parser(ini).update_confidences(layout)
+                            res.probe('saved_layout_carries_confidences')
+                        except Exception:
+                            pass
                     strip = op.get('strip')
                     lines = list(layout.lines_iterator())
                     if strip and lines:
@@ -200,6 +212,8 @@ def execute(plan):
                     model[pg] = {ln.id: line_model(ln) for ln in lines}
                     legacy.discard(pg)
                     originals[pg] = copy.deepcopy(layout)
+                    for ln in originals[pg].lines_iterator():
+                        ln.transcription_confidence = None     # the original as the one-process flow decodes it
                     shape.append('S')
                     continue
                 if op['op'] == 'corrupt':
